@@ -131,6 +131,10 @@ def finish(prop: str, *, tier: str, seed: int, level: str, coverage: dict,
             {'rule': s[0], 'site': s[1]} for s in matched],
         'raw_violation_count': len(violations),
     }
+    if os.environ.get('VERIF_NO_EVIDENCE'):
+        # development runs against deliberately broken trees
+        sys.stdout.flush()
+        return 1 if new else 0
     os.makedirs(EVIDENCE_DIR, exist_ok=True)
     with open(os.path.join(EVIDENCE_DIR, prop + '.json'), 'w') as f:
         json.dump(ev, f, indent=1, sort_keys=True)
